@@ -43,7 +43,10 @@ def expand(root, repo):
     crate = os.path.join(work, 'crate')
     open(os.path.join(crate, 'Cargo.toml'), 'w').write(CARGO % dict(repo=os.path.abspath(repo)))
     shutil.copy(os.path.join(root, 'kani', 'src', 'corpus.rs'), os.path.join(crate, 'src', 'lib.rs'))
-    shutil.copy(os.path.join(repo, 'Cargo.lock'), os.path.join(crate, 'Cargo.lock'))
+    lock = os.path.join(repo, 'Cargo.lock')
+    if not os.path.exists(lock):
+        lock = os.path.join(root, 'kani', 'Cargo.lock')  # a scratch worktree has no (git-ignored) lock file
+    shutil.copy(lock, os.path.join(crate, 'Cargo.lock'))
     env = dict(os.environ, RUSTC_BOOTSTRAP='1', CARGO_NET_OFFLINE='true')
     p = subprocess.run(['cargo', 'rustc', '--offline', '--lib', '--target-dir', os.path.join(work, 'target'), '--',
                         '-Zunpretty=expanded'], cwd=crate, capture_output=True, text=True, env=env, timeout=900)
